@@ -53,7 +53,9 @@ def main():
         errs = [l for l in build_log.split("\n") if "error" in l]
         proof_fail_reason = "lake build failed: " + " | ".join(errs[:6])
     else:
-        forb = hv.grep_forbidden()
+        # only the files the property's modules (and the model driver) are built from: work in progress elsewhere in the
+        # library is not part of this property's proof
+        forb = hv.grep_forbidden(hv.import_closure(modules + ["Driver.Main"]))
         if forb:
             proof_ok = False
             proof_fail_reason = "forbidden construct: " + "; ".join(forb[:5])
@@ -96,25 +98,29 @@ def main():
             violations.append(v)
         notes += res.get("notes", [])
 
-    if not proof_ok:
-        found = [v for v in violations if v.get("found_input")]
-        if not found:
-            violations.append({"kind": "proof", "what": proof_fail_reason, "found_input": False,
-                               "replay": {"theorem_or_correspondence": proof_fail_reason, "modules": modules}})
-
     # ---------------- 3. known findings -----------------------------------------------------
+    # only failures of the property on a concrete input can be known findings; a broken proof obligation, a broken
+    # harness build or a broken translator never is
     known = hv.load_known()
     final = []
     for v in violations:
         hit = None
-        for k in known.get("findings", []):
-            if k["property"] == pid and prop.matches(k, v):
-                hit = k
-                break
+        if v.get("kind") not in ("proof", "harness-build"):
+            for k in known.get("findings", []):
+                if k["property"] == pid and prop.matches(k, v):
+                    hit = k
+                    break
         if hit:
             known_hits.append((hit, v))
         else:
             final.append(v)
+    if not proof_ok:
+        # the proof no longer checks: report the failing input the search found (one that is not a listed finding), else the
+        # obligation itself with no-failing-input-found
+        found = [v for v in final if v.get("found_input")]
+        if not found:
+            final.append({"kind": "proof", "what": proof_fail_reason, "found_input": False,
+                          "replay": {"theorem_or_correspondence": proof_fail_reason, "modules": modules}})
     seen = set()
     for hit, v in known_hits:
         if hit["id"] in seen:
